@@ -881,3 +881,10 @@ impl driver_context_t<u16> for LigatureCtx<'_> {
         Some(())
     }
 }
+
+/// Verification hooks (compiled only with `--cfg rb_verif`).
+#[cfg(rb_verif)]
+#[allow(unused_imports, dead_code, missing_docs)]
+pub mod verif_hooks {
+    use super::*;
+}
